@@ -653,7 +653,7 @@ def public_master_account(ctx):
         if q is None:
             ctx.undecided('HDKey.%s vanished' % meth)
         fn = ctx.repo.func(q)
-        for account in (3, 0):
+        for account, wt_req in ((3, None), (0, None), (3, 'p2sh-segwit')):
             seen = []
 
             def h_expand(it, a, kw, st, node):
@@ -667,19 +667,23 @@ def public_master_account(ctx):
             hooks = {'get_key_structure_data': lambda it, a, kw, st, node: (["m", "purpose'", "coin_type'", "account'", 'change', 'address_index'], 44, 'base58'), 'path_expand': h_expand}
             it = Interp(ctx.repo, 'keys', hooks=hooks, self_cls='keys:HDKey', attr_hook=attr_hook, inline=['self.public_master'])
             try:
-                it.run_function(fn, {'self': S(SELF), 'account_id': account, 'purpose': None, 'witness_type': None, 'as_private': False})
+                it.run_function(fn, {'self': S(SELF), 'account_id': account, 'purpose': None, 'witness_type': wt_req, 'as_private': False})
             except AnalysisError as e:
                 ctx.undecided('HDKey.%s(account_id=%d) not evaluable: %s' % (meth, account, str(e)[:100]))
             if not seen:
                 ctx.undecided('HDKey.%s: the path is not expanded with path_expand' % meth)
             for kw in seen:
                 n += 1
+                wt_got = kw.get('witness_type')
+                wt_got = wt_got if not isinstance(wt_got, S) else term(wt_got)
+                ctx.require(wt_req is None or wt_got == wt_req, q, '%s(witness_type=%r) expands the path for witness type %s' % (meth, wt_req, show(wt_got) if isinstance(wt_got, tuple) else wt_got), fn,
+                            "public_master_multisig(witness_type='p2sh-segwit') on a key whose own witness type is segwit exports the key at m/48'/coin'/0'/2' instead of .../1': the cosigner wallets build different scripts for the same path")
                 got = kw.get('account_id')
                 got = got if not isinstance(got, S) else show(term(got))
                 ctx.saw('%s(account_id=%d) expands the path with account_id=%s' % (meth, account, got))
                 ctx.require(got == account, q, '%s(account_id=%d) derives the key of account %s' % (meth, account, got), fn,
                             "a cosigner exports public_master_multisig(account_id=3) and hands over the key of account 0: the multisig wallet built on it pays to scripts the cosigners' seeds do not give for m/48'/0'/3'/2'/...")
-    ctx.floor(n, 4, 'account scenarios')
+    ctx.floor(n, 6, 'account scenarios')
 
 
 def _const_account(tree):
@@ -745,3 +749,34 @@ def prefix_is_relative(ctx):
             ctx.require(ok, q, 'on a key of depth %d, subkey_for_path(%r) derives %s, expected one step per level: %s' % (depth, path, [(d[1], d[2]) for d in derive], [(e[1], e[2]) for e in exp]), fn,
                         'account_key.subkey_for_path(<m/1/2h>) silently drops the first levels of the path: the result has the wrong depth, child number and key, no error is raised')
     ctx.floor(n, 10, 'path scenarios')
+
+
+@PROP.obligation('C03.path-argument-untouched', canaries=[
+    mut.replace_stmt('keys', 'HDKey.subkey_for_path', 'path = path[1:]', 'path.pop(0)', 'the master marker is popped out of the caller\'s list', nth=0),
+])
+def path_argument_untouched(ctx):
+    """subkey_for_path accepts its path as a list as well as text. A list is the CALLER's object: the method never changes it in place (pop /
+    remove / insert / del / item assignment on `path`) unless it has first replaced it by a copy on every path. Popping the 'M' marker
+    out of the caller's list makes a second call with the same list - a retry, a loop over several keys - a relative PRIVATE derivation:
+    ['M', "0'"] on a private key raises the first time and returns the hardened private child the second time."""
+    q = 'keys:HDKey.subkey_for_path'
+    fn = ctx.repo.func(q)
+    copies = [a for a in fn.body if isinstance(a, ast.Assign) and any(isinstance(t, ast.Name) and t.id == 'path' for t in a.targets) and
+              ((isinstance(a.value, ast.Call) and norm(a.value.func) in ('list', 'copy.copy', 'copy.deepcopy', 'deepcopy')) or
+               (isinstance(a.value, ast.Subscript) and isinstance(a.value.slice, ast.Slice) and norm(a.value.value) == 'path' and a.value.slice.lower is None and a.value.slice.upper is None))]
+    first_copy = min((a.lineno for a in copies), default=None)
+    n = 0
+    for x in ast.walk(fn):
+        bad = None
+        if isinstance(x, ast.Call) and isinstance(x.func, ast.Attribute) and norm(x.func.value) == 'path' and x.func.attr in ('pop', 'remove', 'insert', 'append', 'extend', 'clear', 'sort', 'reverse'):
+            bad = norm(x)
+        elif isinstance(x, ast.Delete) and any(isinstance(t, ast.Subscript) and norm(t.value) == 'path' for t in x.targets):
+            bad = norm(x)
+        elif isinstance(x, (ast.Assign, ast.AugAssign)) and any(isinstance(t, ast.Subscript) and norm(t.value) == 'path' for t in (x.targets if isinstance(x, ast.Assign) else [x.target])):
+            bad = norm(x)
+        if bad is None:
+            continue
+        n += 1
+        ctx.require(first_copy is not None and first_copy < x.lineno, q, '`%s` changes the path list the caller passed in' % bad[:50], x,
+                    'p = [M, 0h]; k.subkey_for_path(p) raises as it must; the same call again returns the private hardened child: the marker is gone from the list of the caller')
+    ctx.saw('%d in-place changes of `path` in subkey_for_path; copies of the argument at the top level: %d' % (n, len(copies)))
